@@ -115,7 +115,9 @@ def parseCmds (s : String) : Option (List SrcCmd) :=
         let nl ← nl.toNat?
         let name ← ofHex nm
         let args ← parseArgsL as
-        let pos' := pos + nl + respLen name args
+        -- nl ≥ 10: an inline command line `name arg arg\r\n` behind nl-10 keep-alive newlines
+        let inlineLen := name.length + (args.map (fun a => 1 + a.length)).sum + 2
+        let pos' := if nl ≥ 10 then pos + (nl - 10) + inlineLen else pos + nl + respLen name args
         let rest ← go pos' ts
         pure ({ cmd := normName (bytesToString name), args := args, pos := pos' } :: rest)
       | _ => none
